@@ -128,6 +128,18 @@ func (g *Gen) call(in ssa.CallInstruction, val ssa.Value) {
 		fmt.Fprintf(os.Stderr, "anchor %s %s (%s)\n", g.key, anchor, g.P.posString(in.Pos()))
 	}
 	ce.siteKey = g.key + "@" + anchor
+	if ce.fn != nil && ce.fn.String() == "(*sync.RWMutex).Lock" && len(c.Args) == 1 {
+		if fa, ok := c.Args[0].(*ssa.FieldAddr); ok {
+			st := deref(fa.X.Type())
+			if sts, ok := st.Underlying().(*types.Struct); ok {
+				for _, ff := range g.forbidFields {
+					if ff.WriteLock && typeKey(st) == ff.Struct && sts.Field(fa.Field).Name() == ff.Field {
+						g.oblige("writelock", g.srcOf(in.Pos(), "call"), "no-writer-of-"+ff.Field, []string{g.prop}, false, "false", in.Pos())
+					}
+				}
+			}
+		}
+	}
 	g.atStatements(anchor, "before", in, val, ce)
 	g.applyCall(ce, c, val, in.Pos(), "true")
 	g.atStatements(anchor, "after", in, val, ce)
@@ -136,7 +148,11 @@ func (g *Gen) call(in ssa.CallInstruction, val ssa.Value) {
 // atStatements executes the anchored assertions / ghost updates of this call site.
 func (g *Gen) atStatements(anchor, when string, in ssa.CallInstruction, val ssa.Value, ce callee) {
 	for _, a := range g.S.Ats {
-		if a.Func != g.key || a.Anchor != anchor || a.When != when {
+		if a.Func != g.key || a.When != when {
+			continue
+		}
+		// `callee#*` anchors a statement at every call of callee in the function (also at calls that appear later)
+		if a.Anchor != anchor && !(strings.HasSuffix(a.Anchor, "#*") && strings.HasPrefix(anchor, strings.TrimSuffix(a.Anchor, "*"))) {
 			continue
 		}
 		g.atSeen[a] = true
